@@ -311,9 +311,25 @@ def _steady_performance(b):
         t += bp
     ppart = pf.PerformedPart(notes, id="PP")
     al = [dict(label="match", score_id="n%d" % i, performance_id="p%d" % i) for i in range(12)]
+    _hand_made(b, "almost metronomic (0.510 to 0.490 s per beat)", part, ppart, al)
+    # a chord rolled slowly upward (0.23 s from note to note) while the other hand plays sixteenths in time: the chord's mean onset
+    # lies AFTER the mean onsets of the next two score onsets
+    sn = [("lo%d" % i, 4 * i, 4, "C", None, 3, 2, 1) for i in range(1)] + [("s%d" % i, 4 + i, 1, "CDEFGAB"[i % 7], None, 3, 2, 1) for i in range(8)] + [("q%d" % i, 12 + 4 * i, 4, "G", None, 3, 2, 1) for i in range(3)] + \
+         [("c%d" % k, 4, 8, st, None, oc, 1, 1) for k, (st, oc) in enumerate((("C", 4), ("E", 4), ("G", 4), ("C", 5)))] + [("up", 12, 12, "D", None, 5, 1, 1)]
+    part2 = G.build_part("P1", 4, notes=sn, measures=[(0, 16), (16, 32)])
+    pn, al2 = [], []
+    for k, (nid, on, du, st, _, oc, _, _) in enumerate(sn):
+        t_on = 1.0 + on / 4 * 0.5 + (0.23 * int(nid[1:]) if nid.startswith("c") else 0.0)
+        pn.append(dict(id="p" + nid, midi_pitch=12 * (oc + 1) + {"C": 0, "D": 2, "E": 4, "F": 5, "G": 7, "A": 9, "B": 11}[st], note_on=t_on, note_off=t_on + du / 4 * 0.45, velocity=50 + k, track=0, channel=0))
+        al2.append(dict(label="match", score_id=nid, performance_id="p" + nid))
+    _hand_made(b, "a chord rolled slowly upward over sixteenths played in time", part2, pf.PerformedPart(pn, id="PP"), al2)
+
+
+def _hand_made(b, pname, part, ppart, al):
+    import partitura.musicanalysis.performance_codec as pc
     for norm in ("beat_period", "beat_period_log", "beat_period_ratio", "beat_period_ratio_log", "beat_period_standardized"):
         for method in ("average", "derivative"):
-            case = {"performance": "almost metronomic (0.510 to 0.490 s per beat)", "normalization": norm, "tempo_smooth": method}
+            case = {"performance": pname, "normalization": norm, "tempo_smooth": method}
             ok, enc = b.guard("codec/encode_no_exception", case, lambda: pc.encode_performance(part, ppart, al, beat_normalization=norm, tempo_smooth=method))
             if not ok:
                 continue
@@ -321,10 +337,13 @@ def _steady_performance(b):
             if not ok:
                 continue
             orig = {n["id"]: n for n in ppart.notes}
-            pairs = [(orig["p%s" % sid[1:]], d) for sid, d in zip(enc[1], dec.notes)]
+            pid_of = {a_["score_id"]: a_["performance_id"] for a_ in al}
+            pairs = [(orig[pid_of[str(sid)]], d) for sid, d in zip(enc[1], dec.notes)]
             shifts = [d["note_on"] - o["note_on"] for o, d in pairs]
             bad = None
-            if max(shifts) - min(shifts) > 1e-3:
+            if not all(np.isfinite(float(d[k_])) for _, d in pairs for k_ in ("note_on", "note_off")):
+                bad = "decoded times that are not numbers: %r" % ([(d["id"], d["note_on"], d["note_off"]) for _, d in pairs if not (np.isfinite(float(d["note_on"])) and np.isfinite(float(d["note_off"])))][:4],)
+            elif max(shifts) - min(shifts) > 1e-3:
                 bad = "decoded onsets differ from the performed ones by more than one common shift (spread %.4f s)" % (max(shifts) - min(shifts))
             for o, d in pairs:
                 if abs((d["note_off"] - d["note_on"]) - (o["note_off"] - o["note_on"])) > 1e-3:
